@@ -44,14 +44,19 @@ def run(ctx):
     ctx.model("Tables.tla constant relations (ASSUME)", r)
     rng = ctx.rng
     jobs, meta = [], []
-    def bvn(rho, mu, v):
-        return dict(kind="bvn", ts=TS, mu=list(mu), vx=v[0], vy=v[1], rho=rho)
+    def bvn(rho, mu, v, intpts=False):
+        return dict(kind="bvn", ts=TS, mu=list(mu), vx=v[0], vy=v[1], rho=rho, intpts=intpts)
     rhos = [(n, r0, a) for n, (r0, a) in ANCH.items()] + [(str(r0), r0, (0, 0)) for r0 in (OTHER if not quick else OTHER[::2] + [0.93])]
     for name, rho, anc in rhos:
         for vi, v in enumerate(VARS if not quick else VARS[:4]):
             mu = MUS[(vi + len(name)) % 2] if min(v) >= 1e-4 else MUS[0]   # a non-zero mean with a tiny sd would put x - mu off the lattice by cancellation
             meta.append(("grid", name, anc, mu, v, len(jobs)))
             jobs += [bvn(rho, mu, v), bvn(-rho, mu, v)]
+    # the same grids with INTEGER-dtype evaluation points (standard deviation 8: the 1/8-sd lattice falls on the integers)
+    for name, rho, anc in rhos:
+        mu = MUS[len(name) % 2]
+        meta.append(("grid", name + " (integer-dtype points)", anc, mu, (64.0, 64.0), len(jobs)))
+        jobs += [bvn(rho, mu, (64.0, 64.0), True), bvn(-rho, mu, (64.0, 64.0), True)]
     # Slepian pairs: consecutive correlations (both signs) on the same mean and variances
     allr = sorted({r0 for _, r0, _ in rhos} | {-r0 for _, r0, _ in rhos} | {0.0})
     v0 = VARS[1]
@@ -72,6 +77,8 @@ def run(ctx):
         for mu in (MUS if min(v) >= 1e-4 else MUS[:1]):
             meta.append(("product", 0.0, None, mu, v, len(jobs)))
             jobs.append(dict(kind="product", ts=TS, mu=list(mu), vx=v[0], vy=v[1]))
+    meta.append(("product", 0.0, None, MUS[1], (64.0, 64.0), len(jobs)))
+    jobs.append(dict(kind="product", ts=TS, mu=list(MUS[1]), vx=64.0, vy=64.0, intpts=True))
     upts = []
     for _ in range(200 if quick else 2000):
         w, h = 2 * rng.randint(1, 6), 2 * rng.randint(1, 6)          # half ticks, even so that centre +- w/2 is a whole half tick
@@ -117,9 +124,10 @@ def run(ctx):
         elif status == "machinery":
             ctx.machinery_errors.append("TraceKernel: %s on %s" % (clause, m[:5]))
         else:
-            rho = m[1] if isinstance(m[1], float) else (max(abs(m[1][0]), abs(m[1][1])) if isinstance(m[1], tuple) else (ANCH.get(m[1], (None,))[0] if m[0] == "grid" else None))
+            nm = m[1].replace(" (integer-dtype points)", "") if isinstance(m[1], str) else m[1]
+            rho = nm if isinstance(nm, float) else (max(abs(nm[0]), abs(nm[1])) if isinstance(nm, tuple) else (ANCH.get(nm, (None,))[0] if m[0] == "grid" else None))
             if m[0] == "grid" and rho is None:
-                rho = float(m[1])
+                rho = float(nm)
             ctx.failure({"clause": clause, "kind": m[0], "abs_rho_ge_0.925": bool(rho is not None and abs(rho) >= 0.925)}, {"kind": "kernel", "meta": [str(x) for x in m[:5]], "at": v[4:6]})
 
 
